@@ -71,6 +71,34 @@ theorem exact_lines (init : St) (ops : List Op) (lines : List Str)
     have := hc l hl b hb
     exact ⟨⟨this.1, this.2.1⟩, this.2.2⟩
 
+/-- **Field level — a header NAME cannot smuggle another field**: when `finish` does not raise, the block is the
+status line followed by one line per (name, value) of the final header map; every name is an RFC 9110 token, and a
+strict client that takes the text before the FIRST colon of a line as the field name (and demands a token) reads
+back exactly those (name, `" " ++ value`) pairs, in order — so `set_header("Set-Cookie: a=b; x", "v")` or
+`set_header("X Y", "v")` can only end in an exception, never in a line that is attributed to another field. -/
+theorem fields_exact (init : St) (ops : List Op) (lines : List Str)
+    (h : (response init ops).2 = .ok lines) :
+    ∃ hdrs : List (Str × Str), lines = statusLine (finishPrep (run init ops).1).code (finishPrep (run init ops).1).reason
+        :: hdrs.map headerLine ∧
+      (∀ p ∈ hdrs, isToken p.1 = true) ∧
+      lines.tail.mapM Spec.parseField = some (hdrs.map (fun p => (p.1, 32 :: p.2))) := by
+  simp only [response, responseG, finishG] at h
+  split at h
+  · cases h
+  · rename_i cs hcs
+    have hl := (writeHeadersG_ok h).1
+    have hn := writeHeadersG_names h
+    refine ⟨_, hl, hn, ?_⟩
+    rw [hl]
+    exact parseFields_lines _ hn
+
+/-- a colon (or a space) in a header name: accepted by `set_header` (nothing validates the name at call time),
+rejected by the name check of `write_headers` — nothing is written -/
+example : (response (initSt [83] [84] [68]) [.setHeader (ofAscii "X: y") (.str [118])])
+    = ([none], .error .valueError) := by rfl
+example : (response (initSt [83] [84] [68]) [.setHeader (ofAscii "X Y") (.str [118])])
+    = ([none], .error .valueError) := by rfl
+
 /-- NUL occurs nowhere in the bytes handed to the stream -/
 theorem nul_not_in_wire (init : St) (ops : List Op) (lines : List Str)
     (h : (response init ops).2 = .ok lines) : 0 ∉ wire lines := by
@@ -190,18 +218,21 @@ example : (step (initSt [83] [84] [68]) (.redirect (.str [47, 10, 88]) false)).2
 
 /-! ### D9: the guard as found (`CR_OR_LF_RE`) lets NUL in a header name through -/
 
-/-- the statement of `no_ctl_on_wire` for the guard of the tree as found -/
+/-- the statement "no CR, LF, NUL on the wire" for the guard of the tree as found (`CR_OR_LF_RE`), over the
+connection-level API.  (Stated over `responseG` until the header-name `fix:` commit: the witness then was
+`set_header("A\x00B", "v")`; a NUL in a NAME is now also stopped by the token check of `write_headers`, but a NUL
+in a VALUE stored with `h[name] = value` is stopped by nothing except the byte guard.) -/
 def no_ctl_on_wire_old_guard_full : Prop :=
-  ∀ (init : St) (ops : List Op) (lines : List Str), (responseG forbiddenByteOld init ops).2 = .ok lines →
+  ∀ (code : Int) (reason : Str) (hops : List HOp) (lines : List Str),
+    (rawResponseG forbiddenByteOld code reason hops).2 = .ok lines →
     ∀ l ∈ lines, ∀ b ∈ l, b ≠ 13 ∧ b ≠ 10 ∧ b ≠ 0
 
-/-- `set_header("A\x00B", "v")` reaches the wire with the old guard: the full statement is false for it
+/-- `h["X-A"] = "a\x00b"` reaches the wire with the old guard: the full statement is false for it
 (this is defect D9; the `fix:` commit extends the guard, and `no_ctl_on_wire` above is about the fixed guard) -/
 theorem old_guard_lets_nul_through : ¬ no_ctl_on_wire_old_guard_full := by
   intro h
-  have := h (initSt [83] [84] [68]) [.setHeader [65, 0, 66] (.str [118])]
-    [ofAscii "HTTP/1.1 200 OK", ofAscii "Server: S", ofAscii "Content-Type: T", ofAscii "Date: D",
-     [65, 0, 98, 58, 32, 118], ofAscii "Content-Length: 0"] rfl [65, 0, 98, 58, 32, 118] (by simp) 0 (by simp)
+  have := h 200 (ofAscii "OK") [.set [88, 45, 65] [97, 0, 98]]
+    [ofAscii "HTTP/1.1 200 OK", [88, 45, 65, 58, 32, 97, 0, 98]] rfl [88, 45, 65, 58, 32, 97, 0, 98] (by simp) 0 (by simp)
   exact this.2.2 rfl
 
 /-- CR and LF are stopped by the old guard as well (what it was written for) -/
@@ -265,6 +296,20 @@ theorem raw_exact_lines (code : Int) (reason : Str) (hops : List HOp) (lines : L
   have hw := writeHeadersRawG_ok (show writeHeadersRawG forbiddenByte code reason (hRun [] hops).1 = .ok lines from h)
   exact ⟨(writeHeadersG_ok hw).1, (wh_exact hw).1, (wh_exact hw).2, wh_no_ctl hw⟩
 
+/-- field level for the connection-level API: `h["X: y"] = "v"` is accepted by `HTTPHeaders` but the response
+is rejected by `write_headers`; an accepted block reads back as exactly the (name, value) pairs of the map -/
+theorem raw_fields_exact (code : Int) (reason : Str) (hops : List HOp) (lines : List Str)
+    (h : (rawResponse code reason hops).2 = .ok lines) :
+    (∀ p ∈ hAll (hRun [] hops).1, isToken p.1 = true) ∧
+    lines.tail.mapM Spec.parseField = some ((hAll (hRun [] hops).1).map (fun p => (p.1, 32 :: p.2))) := by
+  have hw := writeHeadersRawG_ok (show writeHeadersRawG forbiddenByte code reason (hRun [] hops).1 = .ok lines from h)
+  have hn := writeHeadersG_names hw
+  refine ⟨hn, ?_⟩
+  rw [(writeHeadersG_ok hw).1]
+  exact parseFields_lines _ hn
+
+example : rawResponse 200 (ofAscii "OK") [.set (ofAscii "Set-Cookie: a=b; x") [118]] = ([none], .error .valueError) := by rfl
+
 /-- the same for a WSGI application behind `WSGIContainer` (status string `"<code> <reason>"`, header pairs) -/
 theorem wsgi_exact_lines (server ctype : Str) (code : Int) (reason : Str) (hs : List (Str × Str)) (lines : List Str)
     (h : wsgiResponse server ctype code reason hs = .ok lines) :
@@ -275,6 +320,21 @@ theorem wsgi_exact_lines (server ctype : Str) (code : Int) (reason : Str) (hs : 
   · cases h
   · have hw := writeHeadersRawG_ok h
     exact ⟨(wh_exact hw).1, (wh_exact hw).2, wh_no_ctl hw⟩
+
+/-- field level for WSGI: every line after the start line of an accepted response is `token ":" SP value` -/
+theorem wsgi_fields_exact (server ctype : Str) (code : Int) (reason : Str) (hs : List (Str × Str)) (lines : List Str)
+    (h : wsgiResponse server ctype code reason hs = .ok lines) :
+    ∃ hdrs : List (Str × Str), lines = statusLine code reason :: hdrs.map headerLine ∧
+      (∀ p ∈ hdrs, isToken p.1 = true) ∧
+      lines.tail.mapM Spec.parseField = some (hdrs.map (fun p => (p.1, 32 :: p.2))) := by
+  simp only [wsgiResponse, wsgiResponseG] at h
+  split at h
+  · cases h
+  · have hw := writeHeadersRawG_ok h
+    have hn := writeHeadersG_names hw
+    refine ⟨_, (writeHeadersG_ok hw).1, hn, ?_⟩
+    rw [(writeHeadersG_ok hw).1]
+    exact parseFields_lines _ hn
 
 /-- an accepted start line carries the reason's UTF-8 bytes, so an accepted reason has no CR, LF, NUL -/
 theorem raw_reason_clean (code : Int) (reason : Str) (hops : List HOp) (lines : List Str)
